@@ -101,7 +101,9 @@ type LoopCase struct {
 	ExcludedEmpty int  `json:"excluded_empty,omitempty"`
 	// OwnCorruptOnly: the only blob under the instance's own name is undecodable (an old, damaged upload): once it has
 	// been found undecodable the instance goes on - merges its peers and publishes its own data
-	OwnCorruptOnly bool `json:"own_corrupt_only,omitempty"`
+	// (1: one blob that is no gzip stream; 2: two blobs - no gzip stream, and a gzip stream holding a DBI field whose
+	// declared length exceeds the message; 3: a gzip stream cut in the middle; 4: an empty object)
+	OwnCorruptOnly int `json:"own_corrupt_only,omitempty"`
 	// OnlyTxnIDs (C14's use of this harness): only the header-transaction-id oracle decides; what the
 	// content oracles (C03/C09) would report is left to the checks of those properties
 	OnlyTxnIDs bool `json:"only_txn_ids,omitempty"`
@@ -595,8 +597,21 @@ func runLoopCase(c LoopCase, o *vcore.Obs) (*loopStats, error) {
 		h.SetPlan("load", []string{fault.Fail, fault.Fail, fault.Fail})
 		ownPhase = true
 	}
-	if c.OwnCorruptOnly && len(c.Start) > 0 && !c.OwnAtStart {
-		b.Put(snapshot.Name(DBName, "a", "GX", time.Date(2020, 1, 1, 0, 0, 0, 0, time.UTC)), []byte("damaged upload: not a gzip stream"))
+	if c.OwnCorruptOnly > 0 && len(c.Start) > 0 && !c.OwnAtStart {
+		old := time.Date(2020, 1, 1, 0, 0, 0, 0, time.UTC)
+		switch c.OwnCorruptOnly {
+		case 1:
+			b.Put(snapshot.Name(DBName, "a", "GX", old), []byte("damaged upload: not a gzip stream"))
+		case 2:
+			b.Put(snapshot.Name(DBName, "a", "GX", old), []byte("damaged upload: not a gzip stream"))
+			// field 4 (databases), wire type 2, declared length 100, 3 bytes follow
+			b.Put(snapshot.Name(DBName, "a", "GX", old.Add(time.Hour)), gzBytes([]byte{0x22, 100, 1, 2, 3}))
+		case 3:
+			whole := gzBytes([]byte("0123456789012345678901234567890123456789012345678901234567890123456789"))
+			b.Put(snapshot.Name(DBName, "a", "GX", old), whole[:len(whole)/2])
+		default:
+			b.Put(snapshot.Name(DBName, "a", "GX", old), nil)
+		}
 	}
 	dlBase, _ := nd.Downloads()
 	if ownPhase {
@@ -1223,7 +1238,9 @@ func genLoopCase(t *rapid.T) LoopCase {
 	c.SweeperRuns = !c.Sweeper && rapid.IntRange(0, 4).Draw(t, "sweeper_runs") == 0
 	c.OwnAtStart = rapid.IntRange(0, 4).Draw(t, "own_at_start") == 0
 	c.Pad = rapid.IntRange(0, 3).Draw(t, "pad") == 0
-	c.OwnCorruptOnly = !c.OwnAtStart && rapid.IntRange(0, 5).Draw(t, "own_corrupt_only") == 0
+	if k := rapid.IntRange(0, 5).Draw(t, "own_corrupt_only"); k == 0 && !c.OwnAtStart {
+		c.OwnCorruptOnly = rapid.IntRange(1, 4).Draw(t, "own_corrupt_kind")
+	}
 	nkeys := rapid.IntRange(1, 3).Draw(t, "nkeys")
 	if rapid.IntRange(0, 2).Draw(t, "start?") > 0 {
 		for i := 0; i < rapid.IntRange(1, 3).Draw(t, "nstart"); i++ {
@@ -1305,7 +1322,7 @@ type enumLoop struct {
 	// exist locally and sorts first, plus an OLDER version of the key the application overwrites
 	NewDBIFirst bool `json:"new_dbi_first,omitempty"`
 	// OwnCorruptOnly: the only blob stored under the instance's own name is undecodable
-	OwnCorruptOnly bool `json:"own_corrupt_only,omitempty"`
+	OwnCorruptOnly int `json:"own_corrupt_only,omitempty"`
 }
 
 func (e enumLoop) toCase() LoopCase {
@@ -1453,7 +1470,7 @@ func TestC03Enum(t *testing.T) {
 						// the only blob under the instance's own name is undecodable
 						if k == "insert" {
 							for _, lf := range []bool{false, true} {
-								if !yield(enumLoop{Native: native, Point: p, Kind: k, PeerNoop: false, LocalFirst: lf, OwnCorruptOnly: true}) {
+								if !yield(enumLoop{Native: native, Point: p, Kind: k, PeerNoop: false, LocalFirst: lf, OwnCorruptOnly: 1}) {
 									return
 								}
 							}
@@ -1643,13 +1660,15 @@ func TestC04LoopEnum(t *testing.T) {
 func TestC08OwnCorruptEnum(t *testing.T) {
 	points := loopYieldPoints[:nMainPoints]
 	vcore.RunEnum(t, vcore.Config{Property: "C08", Inflight: true,
-		Rule: "enumeration over the real sync loop: the only blob stored under the instance's own name is undecodable (a damaged old upload); the instance has local data, merges two peer snapshots and its application commits at EVERY yield point x {native, shadow} x {another commit precedes or not}: the damaged blob is ignored after the first attempt, the loop becomes idle and the newest own snapshot then carries the application's data (the instance is not blocked); non-trivial = the commit fell between two LS transactions"},
+		Rule: "enumeration over the real sync loop: the only blobs stored under the instance's own name are undecodable (4 kinds: no gzip stream; that plus a gzip stream with a DBI field longer than the message; a gzip stream cut in the middle; an empty object); the instance has local data, merges two peer snapshots and its application commits at EVERY yield point x {native, shadow} x {another commit precedes or not}: the damaged blob is ignored after the first attempt, the loop becomes idle and the newest own snapshot then carries the application's data (the instance is not blocked); non-trivial = the commit fell between two LS transactions"},
 		func(yield func(enumLoop) bool) {
 			for _, native := range []bool{true, false} {
 				for _, p := range points {
 					for _, lf := range []bool{false, true} {
-						if !yield(enumLoop{Native: native, Point: p, Kind: "insert", LocalFirst: lf, OwnCorruptOnly: true}) {
-							return
+						for kind := 1; kind <= 4; kind++ {
+							if !yield(enumLoop{Native: native, Point: p, Kind: "insert", LocalFirst: lf, OwnCorruptOnly: kind}) {
+								return
+							}
 						}
 					}
 				}
